@@ -1,3 +1,3 @@
 #!/bin/bash
 # the repository's own suite with the `verif` feature OFF (the default)
-cd /repo && exec cargo test --workspace --no-fail-fast --offline
+cd /repo && exec cargo test --workspace --no-fail-fast --offline </dev/null
